@@ -14,7 +14,7 @@
    proved (fold-free queries: `..._partial`); for queries with folds the implementation is covered by
    the run-time oracle of ./check C13 (every row of the real engine against the real declared types). *)
 From Coq Require Import Permutation.
-From TF Require Import Values Exec Sem Sim SimComp SimOut SimTop Run WfIR WfIRProofs.
+From TF Require Import Values Exec Sem Sim SimComp SimOut SimTop Run SimGen SimFull WfCheck WfIR WfIRProofs TypedFull.
 Local Open Scope string_scope.
 
 (* ---- exactly the declared names ---- *)
@@ -65,6 +65,20 @@ Theorem C13_engine_rows_typed_fold_free_partial :
       forall n t v, In (n, (t, v)) (ix_outputs ix) -> ty_valid t (row_get row n) = Ok true.
 Proof. exact engine_rows_typed_fold_free_partial. Qed.
 Print Assumptions C13_engine_rows_typed_fold_free_partial.
+
+(* ... and for the rows of the engine model on EVERY query meeting the hypotheses of the whole-query
+   refinement theorem C01_engine_refines_spec (any nesting of folds; spec_hyps is their executable
+   conjunction, evaluated on every generated world by the C01 harness) *)
+Theorem C13_engine_rows_typed :
+  forall re g args S q ix q' rows,
+    ty_indep g -> conforms S g -> wf_ir q = true -> spec_hyps args q' = true -> outputs_typed S (rq_comp q) ->
+    index_query q = Ok (inr ix) -> lower_query q = Ok q' ->
+    interpret re g args q' = Ok rows ->
+    forall row, In row rows ->
+      (forall n, lookup_str n row <> None <-> In n (map fst (ix_outputs ix))) /\
+      forall n t v, In (n, (t, v)) (ix_outputs ix) -> ty_valid t (row_get row n) = Ok true.
+Proof. exact engine_rows_typed. Qed.
+Print Assumptions C13_engine_rows_typed.
 
 (* ---- the three clauses about the declared types ---- *)
 (* every declared output is justified by one of the three rules of `declares` *)
